@@ -167,3 +167,38 @@ def generate(repo):
     out.extend(body)
     out.append("end RV.Gen")
     return "\n".join(out) + "\n", notes
+
+
+def lean_chars(s: str) -> str:
+    return lean_str(s) + ".toList"
+
+
+@section
+def _tags(repo, out, notes):
+    """LEGACY_ALIASES from the source text; the interpreter environment and packaging's supported-tag
+    table are read from the running interpreter with the working tree's module imported."""
+    c = module_constants(repo, "req_compile/repos/repository.py", ["LEGACY_ALIASES", "INTERPRETER_TAGS", "MANYLINUX_REGEX"])
+    if c["MANYLINUX_REGEX"] != r"manylinux_([0-9]+)_([0-9]+)_(.*)":
+        notes.append("MANYLINUX_REGEX changed: %r (Model/Tags.parseManylinux mirrors the pinned one)" % c["MANYLINUX_REGEX"])
+    out.append("/-- regenerated from req_compile/repos/repository.py:LEGACY_ALIASES -/")
+    out.append("def legacyAliases : List (List Char × List Char) := %s" % lean_list(
+        "(%s, %s)" % (lean_chars(k), lean_chars(v)) for k, v in c["LEGACY_ALIASES"].items()))
+    out.append("def manylinuxRegex : String := %s" % lean_str(c["MANYLINUX_REGEX"]))
+    import importlib
+    import sys
+    if repo not in sys.path[:1]:
+        sys.path.insert(0, repo)
+    R = importlib.import_module("req_compile.repos.repository")
+    import packaging.tags
+    glibc = R.get_glibc_version()
+    out.append("/-- the running interpreter as req_compile.repos.repository sees it (module constants of the working tree) -/")
+    out.append("def hereEnv : Tags.TagEnv := { impl := %s, major := %d, minor := %d, abiTags := %s, platTags := %s, glibc := %s, arch := %s, aliases := legacyAliases }" % (
+        lean_chars(R.INTERPRETER_TAG), sys.version_info.major, sys.version_info.minor,
+        lean_list(lean_chars(a) for a in R.ABI_TAGS), lean_list(lean_chars(p) for p in R.PLATFORM_TAGS),
+        "none" if glibc is None else "some (%d, %d)" % glibc, lean_chars(R.get_system_arch())))
+    tags = [(t.interpreter, t.abi, t.platform) for t in packaging.tags.sys_tags()]
+    out.append("/-- packaging.tags.sys_tags() of the running interpreter: %d (interpreter, abi, platform) triples -/" % len(tags))
+    out.append("def sysTags : List (List Char × List Char × List Char) := [")
+    out.append(",\n".join("  (%s, %s, %s)" % (lean_chars(a), lean_chars(b), lean_chars(c_)) for a, b, c_ in tags))
+    out.append("]")
+    return ["ReqVerif.Model.Tags"]
